@@ -390,8 +390,25 @@ func r063Inheritance(c *an.Ctx) {
 			for _, fct := range g.DominatingFacts(loc) {
 				if k := collOf(fct.Cond); k != "" {
 					facts[k] = fct.Holds
+					// the same fact in one canonical form: "<collection> empty"
+					switch {
+					case strings.HasSuffix(k, " > 0"), strings.HasSuffix(k, " != 0"):
+						facts[k[:strings.LastIndex(k, " ")-2]+" empty"] = !fct.Holds
+					case strings.HasSuffix(k, " == 0"), strings.HasSuffix(k, " < 1"):
+						facts[k[:strings.LastIndex(k, " ")-3]+" empty"] = fct.Holds
+					}
 				} else {
 					facts[types.ExprString(fct.Cond)] = fct.Holds
+					// the no-security test: a scheme of kind NoKind was seen
+					if be, ok := an.Unparen(fct.Cond).(*ast.BinaryExpr); ok && be.Op == token.EQL && fct.Holds {
+						if strings.HasSuffix(types.ExprString(be.Y), "NoKind") || strings.HasSuffix(types.ExprString(be.X), "NoKind") {
+							facts["#nosecurity"] = true
+						}
+					}
+					// or a flag that is only ever set under that test
+					if id, ok := an.Unparen(fct.Cond).(*ast.Ident); ok && fct.Holds && flagSetUnderNoKind(g, info, id) {
+						facts["#nosecurity"] = true
+					}
 				}
 			}
 			if os.Getenv("GOACHECK_DEBUG") != "" {
@@ -407,26 +424,26 @@ func r063Inheritance(c *an.Ctx) {
 		seen[a.src] = true
 		switch {
 		case a.src == "nil":
-			if v, ok := a.facts["noreq"]; !ok || !v {
+			if !a.facts["#nosecurity"] {
 				probs = append(probs, "requirements are cleared without the NoSecurity test holding")
 			}
 		case a.src == recv+".Service.Requirements":
-			if v, ok := a.facts[recv+".Requirements == 0"]; !ok || !v {
+			if v, ok := a.facts[recv+".Requirements empty"]; !ok || !v {
 				probs = append(probs, "service requirements are inherited although the method has its own")
 			}
-			if v, ok := a.facts[recv+".Service.Requirements > 0"]; !ok || !v {
+			if v, ok := a.facts[recv+".Service.Requirements empty"]; !ok || v {
 				probs = append(probs, "service requirements are inherited without testing that the service has any")
 			}
 			for k, v := range a.facts {
-				if strings.Contains(k, "API.Requirements") && !(strings.HasSuffix(k, "== 0") == v) {
+				if strings.Contains(k, "API.Requirements") && strings.HasSuffix(k, " empty") && !v {
 					probs = append(probs, "service requirements are inherited only when the API has none ("+k+"): the API level takes precedence over the service level")
 				}
 			}
 		case strings.HasSuffix(a.src, "API.Requirements"):
-			if v, ok := a.facts[recv+".Requirements == 0"]; !ok || !v {
+			if v, ok := a.facts[recv+".Requirements empty"]; !ok || !v {
 				probs = append(probs, "API requirements are inherited although the method has its own")
 			}
-			if v, ok := a.facts[recv+".Service.Requirements > 0"]; !ok || v {
+			if v, ok := a.facts[recv+".Service.Requirements empty"]; !ok || !v {
 				probs = append(probs, "API requirements are inherited without the service having none: the API level would override the service level")
 			}
 		default:
@@ -687,4 +704,38 @@ func r067InheritanceAgreement(c *an.Ctx, rule string) {
 	a, b := strings.Join(strip(ov), " > "), strings.Join(strip(of), " > ")
 	c.Check(a == b && a != "", rule, "expr.MethodExpr#requirement inheritance", v.Decl.Pos(), "validator and finalizer inherit requirements in the same order ("+a+")",
 		"the validator inherits requirements in the order "+a+" but the finalizer in the order "+b+": a design is validated against one owner's schemes and generated with another's")
+}
+
+// flagSetUnderNoKind: the boolean variable id is assigned true somewhere, and
+// every such assignment is dominated by a successful `<x>.Kind == NoKind` test.
+func flagSetUnderNoKind(g *an.CFG, info *types.Info, id *ast.Ident) bool {
+	o := info.Uses[id]
+	if o == nil {
+		return false
+	}
+	sets, all := 0, true
+	for _, b := range g.Live() {
+		for i, n := range b.Nodes {
+			as, ok := n.(*ast.AssignStmt)
+			if !ok || len(as.Lhs) != 1 || len(as.Rhs) != 1 || an.ObjOf(info, as.Lhs[0]) != o {
+				continue
+			}
+			if v, isConst := an.ConstBool(info, as.Rhs[0]); !isConst || !v {
+				continue
+			}
+			sets++
+			under := false
+			for _, fct := range g.DominatingFacts(an.Loc{Block: b, Idx: i}) {
+				if be, ok := an.Unparen(fct.Cond).(*ast.BinaryExpr); ok && be.Op == token.EQL && fct.Holds {
+					if strings.HasSuffix(types.ExprString(be.Y), "NoKind") || strings.HasSuffix(types.ExprString(be.X), "NoKind") {
+						under = true
+					}
+				}
+			}
+			if !under {
+				all = false
+			}
+		}
+	}
+	return sets > 0 && all
 }
